@@ -182,6 +182,12 @@ func ReadUintVariable(data []byte) (uint64, int, ExitReason) {
 			return 0, 0, ExitPanic
 		}
 
+		// the 9-byte form is only canonical for x >= 2^56
+		if binary.LittleEndian.Uint64(data[1:9]) < (uint64(1) << 56) {
+			pvmLogger.Errorf("readUintVariable: invalid encoding")
+			return 0, 0, ExitPanic
+		}
+
 		return binary.LittleEndian.Uint64(data[1:9]), 9, ExitContinue
 	}
 
